@@ -74,68 +74,282 @@ def _remap_term(t, loff, boff, cont):
     return r
 
 
-def expand(facts, fn, keep, max_depth=4, max_blocks=4000):
-    """synthetic Fn: `fn` with crate-local helper calls (not in keep) inlined"""
-    locals_ = [dict(l) for l in fn.locals]
-    blocks = [dict(cleanup=b['cleanup'], stmts=list(b['stmts']), term=b['term']) for b in fn.blocks]
-    origin = [(fn, i) for i in range(len(blocks))]
-    inlined = []
-    work = [(i, (fn,), 0) for i in range(len(blocks)) if not blocks[i]['cleanup']]
-    while work:
-        bi, stack, depth = work.pop()
-        b = blocks[bi]
-        t = b['term']
-        if t['k'] != 'call' or t['target'] is None:
+CONTINUE_KINDS = ('Ok', 'Some')
+BREAK_KINDS = ('Err', 'None')
+
+
+def _ret_def_kind_stmt(s):
+    """kind of a statement that defines the return slot: ('v', variant) / ('c', value) / None (unknown); False when it is no such def"""
+    if s['k'] != 'assign' or s['p']['l'] != 0:
+        return False
+    if s['p']['pr']:
+        return None
+    if 'ret_kind' in s:
+        return s['ret_kind']
+    rv = s['rv']
+    if rv['k'] == 'agg' and rv.get('ak') == 'adt' and rv.get('variant'):
+        return ('v', rv['variant'])
+    if rv['k'] == 'use' and rv['op']['k'] == 'const' and rv['op']['c'].get('val') is not None and rv['op']['c'].get('ty') == 'bool':
+        return ('c', rv['op']['c']['val'])
+    return None
+
+
+def _ret_defs(g):
+    """[(bb, kind)] for every block of g (non-cleanup) that defines the return slot; kind None = unknown"""
+    out = []
+    ret_ty = g.locals[0]['ty']
+    for bi, b in enumerate(g.blocks):
+        if b['cleanup']:
             continue
+        kinds = []
+        for s in b['stmts']:
+            k = _ret_def_kind_stmt(s)
+            if k is not False:
+                kinds.append(k)
+        t = b['term']
+        if t['k'] == 'call' and t['dest']['l'] == 0:
+            k = None
+            if not t['dest']['pr']:
+                c = callee_of(t)
+                if c and c['path'] == 'std::ops::FromResidual::from_residual':
+                    if ret_ty.startswith('std::result::Result<'):
+                        k = ('v', 'Err')
+                    elif ret_ty.startswith('std::option::Option<'):
+                        k = ('v', 'None')
+            kinds.append(k)
+        if kinds:
+            out.append((bi, kinds[-1] if len(kinds) == 1 else None))
+    return out
+
+
+def _succs(t):
+    k = t['k']
+    if k in ('goto', 'drop', 'assert'):
+        return [t['target']]
+    if k == 'switch':
+        return [b for _, b in t['targets']] + [t['otherwise']]
+    if k == 'call':
+        return [t['target']] if t['target'] is not None else []
+    return []
+
+
+def _retarget(t, m):
+    """copy of terminator t with successor block ids mapped through dict m (ids not in m unchanged)"""
+    r = dict(t)
+    k = t['k']
+    if k in ('goto', 'drop', 'assert', 'call'):
+        if t.get('target') is not None:
+            r['target'] = m.get(t['target'], t['target'])
+    if k == 'switch':
+        r['targets'] = [[v, m.get(b, b)] for v, b in t['targets']]
+        r['otherwise'] = m.get(t['otherwise'], t['otherwise'])
+    return r
+
+
+class _Expander:
+    def __init__(self, facts, keep, max_blocks=3000, max_callee=1500):
+        self.facts = facts
+        self.keep = keep
+        self.memo = {}
+        self.max_blocks = max_blocks
+        self.max_callee = max_callee
+
+    def target_of(self, t):
         c = callee_of(t)
         if not c:
-            continue
+            return None, None
         g = None
         r = c.get('resolved')
         if r and r['local']:
-            g = facts.by_path.get(r['path'])
+            g = self.facts.by_path.get(r['path'])
         if g is None and c['local']:
-            g = facts.by_path.get(c['path'])
-        if g is None or g in keep or g in stack or g.kind == 'Closure' or depth >= max_depth:
-            continue
-        if len(blocks) + len(g.blocks) > max_blocks or len(t['args']) != g.argc:
-            continue
+            g = self.facts.by_path.get(c['path'])
+        return g, c
+
+    def expand(self, fn, stack=()):
+        if fn.path in self.memo:
+            return self.memo[fn.path]
+        stack = stack + (fn,)
+        locals_ = [dict(l) for l in fn.locals]
+        blocks = [dict(cleanup=b['cleanup'], stmts=list(b['stmts']), term=b['term']) for b in fn.blocks]
+        origin = [(fn.path, i) for i in range(len(blocks))]
+        inlined = []
+        for bi in range(len(fn.blocks)):
+            b = blocks[bi]
+            t = b['term']
+            if b['cleanup'] or t['k'] != 'call' or t['target'] is None:
+                continue
+            g, c = self.target_of(t)
+            if g is None or g in self.keep or g in stack or g.kind == 'Closure' or len(t['args']) != g.argc:
+                continue
+            gx = self.expand(g, stack)
+            if len(gx.blocks) > self.max_callee or len(blocks) + 2 * len(gx.blocks) > self.max_blocks:
+                continue
+            self._splice(locals_, blocks, origin, bi, t, c, gx)
+            inlined.append(g.qual)
+            inlined.extend(getattr(gx, 'inlined', []))
+        if not inlined:
+            self.memo[fn.path] = fn
+            return fn
+        j = dict(fn.j)
+        j['locals'] = locals_
+        j['blocks'] = blocks
+        x = Fn(j, fn.idx)
+        x.qual = fn.qual
+        x.owner = getattr(fn, 'owner', None)
+        x.inlined = inlined
+        x.origin = origin
+        x.raw = fn
+        self.memo[fn.path] = x
+        return x
+
+    def _splice(self, locals_, blocks, origin, bi, t, c, gx):
         loff = len(locals_)
         boff = len(blocks)
-        for l in g.locals:
+        sp = t['span']
+        for l in gx.locals:
             locals_.append(dict(l))
-        cont = boff + len(g.blocks)
-        for gi, gb in enumerate(g.blocks):
+        gorigin = getattr(gx, 'origin', None) or [(gx.path, i) for i in range(len(gx.blocks))]
+        RET = -1            # placeholder target of `return`, patched below
+        for gi, gb in enumerate(gx.blocks):
             if gb['cleanup']:
                 blocks.append(dict(cleanup=True, stmts=[], term={'k': 'unreachable', 'span': gb['term']['span']}))
             else:
-                blocks.append(dict(cleanup=False, stmts=[_remap_stmt(s, loff) for s in gb['stmts']], term=_remap_term(gb['term'], loff, boff, cont)))
-            origin.append((g, gi))
-        # continuation: dest = move ret ; goto original target
-        sp = t['span']
-        blocks.append(dict(cleanup=False, stmts=[{'k': 'assign', 'p': t['dest'], 'rv': {'k': 'use', 'op': {'k': 'move', 'p': {'l': loff, 'pr': []}}}, 'span': sp}],
-                           term={'k': 'goto', 'target': t['target'], 'span': sp}))
-        origin.append((fn, bi))
+                blocks.append(dict(cleanup=False, stmts=[_remap_stmt(s, loff) for s in gb['stmts']], term=_remap_term(gb['term'], loff, boff, RET)))
+            origin.append(gorigin[gi])
+        dest = t['dest']
+        host_target = t['target']
+
+        def new_block(stmts, term, org):
+            blocks.append(dict(cleanup=False, stmts=stmts, term=term))
+            origin.append(org)
+            return len(blocks) - 1
+
+        def cont_for(kind):
+            """block that moves the callee's return slot into the call's destination and continues in the host; when the kind of the
+            returned value is known and the host immediately branches on it, the branch is resolved (jump threading)"""
+            mv = {'k': 'assign', 'p': dest, 'rv': {'k': 'use', 'op': {'k': 'move', 'p': {'l': loff, 'pr': []}}}, 'span': sp}
+            if kind is not None and not dest['pr']:
+                mv['ret_kind'] = kind
+            nxt = self._thread(blocks, origin, new_block, dest, host_target, kind) if kind is not None and not dest['pr'] else host_target
+            return new_block([mv], {'k': 'goto', 'target': nxt, 'span': sp}, (origin[bi][0], origin[bi][1]))
+
+        generic = None
+        # tail duplication: one copy of the path from each kind-known definition of the return slot to `return`
+        defs = _ret_defs(gx)
+        defblocks = {b for b, k in defs}
+        threaded = 0
+        budget = 400
+        for db, kind in defs:
+            if kind is None:
+                continue
+            # region: blocks reachable from db's successors
+            start = [x for x in _succs(gx.blocks[db]['term'])]
+            region = []
+            seen = set()
+            todo = list(start)
+            okr = True
+            while todo:
+                x = todo.pop()
+                if x in seen:
+                    continue
+                if x in defblocks or gx.blocks[x]['cleanup']:
+                    okr = False
+                    break
+                seen.add(x)
+                region.append(x)
+                todo.extend(_succs(gx.blocks[x]['term']))
+            if not okr or len(region) > budget:
+                continue
+            budget -= len(region)
+            ck = cont_for(kind)
+            m = {}
+            for x in sorted(region):
+                m[x + boff] = len(blocks) + len(m)
+            for x in sorted(region):
+                gb = gx.blocks[x]
+                term = _remap_term(gb['term'], loff, boff, ck)
+                term = _retarget(term, m)
+                new_block([_remap_stmt(s, loff) for s in gb['stmts']], term, gorigin[x])
+            # the defining block now continues into the copies
+            hb = blocks[db + boff]
+            if gx.blocks[db]['term']['k'] == 'return':
+                hb['term'] = {'k': 'goto', 'target': ck, 'span': hb['term']['span']}
+            else:
+                hb['term'] = _retarget(hb['term'], m)
+            threaded += 1
+        # remaining returns: the generic continuation
+        for gi in range(len(gx.blocks)):
+            hb = blocks[boff + gi]
+            if hb['term']['k'] == 'goto' and hb['term'].get('target') == RET:
+                if generic is None:
+                    generic = cont_for(None)
+                hb['term'] = dict(hb['term'], target=generic)
         # call site: bind arguments, jump to the callee's entry
+        b = blocks[bi]
         for i, a in enumerate(t['args']):
             b['stmts'] = b['stmts'] + [{'k': 'assign', 'p': {'l': loff + 1 + i, 'pr': []}, 'rv': {'k': 'use', 'op': a}, 'span': sp}]
         b['term'] = {'k': 'goto', 'target': boff, 'span': sp, 'inlined_call': c['path']}
-        inlined.append(g.qual)
-        for gi in range(len(g.blocks)):
-            if not g.blocks[gi]['cleanup']:
-                work.append((boff + gi, stack + (g,), depth + 1))
-    if not inlined:
-        return fn
-    j = dict(fn.j)
-    j['locals'] = locals_
-    j['blocks'] = blocks
-    x = Fn(j, fn.idx)
-    x.qual = fn.qual
-    x.owner = getattr(fn, 'owner', None)
-    x.inlined = inlined
-    x.origin = origin
-    x.raw = fn
-    return x
+
+    def _thread(self, blocks, origin, new_block, dest, t_idx, kind):
+        """resolve the host's branch on the value just returned, when the shape is recognised; returns the block to continue in"""
+        T = blocks[t_idx]
+        dl = dest['l']
+        if any(s['k'] == 'assign' and s['p']['l'] == dl for s in T['stmts']):
+            return t_idx
+        tt = T['term']
+        # (A) `?`: Try::branch(move dest) then switch on the discriminant of its result
+        if tt['k'] == 'call' and tt['target'] is not None and kind[0] == 'v' and tt['args']:
+            c = callee_of(tt)
+            a0 = tt['args'][0]
+            if c and c['path'] == 'std::ops::Try::branch' and a0['k'] in ('move', 'copy') and a0['p']['l'] == dl and not a0['p']['pr'] and not tt['dest']['pr']:
+                S = blocks[tt['target']]
+                x = tt['dest']['l']
+                st = S['term']
+                dloc = None
+                for s in S['stmts']:
+                    if s['k'] == 'assign' and s['rv']['k'] == 'discr' and s['rv']['p']['l'] == x and not s['rv']['p']['pr'] and not s['p']['pr']:
+                        dloc = s['p']['l']
+                if dloc is not None and st['k'] == 'switch' and st['discr']['k'] in ('move', 'copy') and st['discr']['p']['l'] == dloc:
+                    want = 0 if kind[1] in CONTINUE_KINDS else 1 if kind[1] in BREAK_KINDS else None
+                    arm = dict((v, bb) for v, bb in st['targets']).get(want) if want is not None else None
+                    if arm is not None:
+                        s2 = new_block(list(S['stmts']), {'k': 'goto', 'target': arm, 'span': st.get('span', tt.get('span'))}, origin[tt['target']])
+                        t2 = new_block(list(T['stmts']), dict(tt, target=s2), origin[t_idx])
+                        return t2
+            return t_idx
+        # (B) match / if let: switch on the discriminant of dest ; (C) if on a bool
+        if tt['k'] == 'switch' and tt['discr']['k'] in ('move', 'copy') and not tt['discr']['p']['pr']:
+            dloc = tt['discr']['p']['l']
+            tg = dict((v, bb) for v, bb in tt['targets'])
+            if kind[0] == 'c' and dloc == dl:
+                arm = tg.get(kind[1], tt['otherwise'])
+                return new_block(list(T['stmts']), {'k': 'goto', 'target': arm, 'span': tt.get('span')}, origin[t_idx])
+            if kind[0] == 'v':
+                for s in T['stmts']:
+                    if s['k'] == 'assign' and s['p']['l'] == dloc and not s['p']['pr'] and s['rv']['k'] == 'discr' and s['rv']['p']['l'] == dl and not s['rv']['p']['pr']:
+                        vi = self._variant_index(s['rv'].get('adt'), kind[1])
+                        if vi is None:
+                            return t_idx
+                        arm = tg.get(vi, tt['otherwise'])
+                        return new_block(list(T['stmts']), {'k': 'goto', 'target': arm, 'span': tt.get('span')}, origin[t_idx])
+        return t_idx
+
+    def _variant_index(self, adt, variant):
+        std = {('std::result::Result', 'Ok'): 0, ('std::result::Result', 'Err'): 1, ('std::option::Option', 'None'): 0, ('std::option::Option', 'Some'): 1}
+        if (adt, variant) in std:
+            return std[(adt, variant)]
+        a = self.facts.adts.get(adt)
+        if a:
+            for v in a['variants']:
+                if v['name'] == variant:
+                    return v['vi']
+        return None
+
+
+def expand(facts, fn, keep, **kw):
+    """synthetic Fn: `fn` with crate-local helper calls (not in keep) inlined"""
+    return _Expander(facts, keep - {fn}).expand(fn)
 
 
 def normalise(facts, keep):
@@ -143,8 +357,9 @@ def normalise(facts, keep):
     Helpers that are still referenced afterwards (recursion, depth or size limit, used as a function value) survive as functions."""
     from facts import Facts
     expanded = {}
+    ex = _Expander(facts, keep)
     for f in facts.fns:
-        expanded[f.path] = expand(facts, f, keep - {f})
+        expanded[f.path] = ex.expand(f)
     # survivors: kept functions and whatever they still reference
     alive = set()
     todo = [f for f in facts.fns if f in keep]
